@@ -633,6 +633,34 @@ func TestCheck(t *testing.T) {
 		})
 	})
 
+	r.Phase("W3: a text parsed, then N distinct other texts (N = 1..200000 on a ladder around powers of two), then the same text again", func() {
+		r.Serial(func(w *vkit.W) {
+			filler := 0
+			for li, n := range []int{1, 2, 3, 31, 32, 33, 63, 64, 65, 127, 128, 129, 255, 256, 257, 511, 512, 513, 1023, 1024, 1025, 2047, 2048, 2049, 4096, 8192, 65536, 200000} {
+				x := strconv.Itoa(1000+li) + " " + ref.Units[1+li%12]
+				y := "1_" + strconv.Itoa(100+n%900) + "KiB"
+				for _, rule := range []int{0, 1} {
+					judge(Case{Kind: "text", Text: vkit.B(x), Rule: rule}, w)
+					judge(Case{Kind: "text", Text: vkit.B(y), Rule: rule}, w)
+				}
+				for k := 0; k < n; k++ {
+					filler++
+					t := strconv.Itoa(filler) + ref.Units[filler%7]
+					if filler%2 == 0 {
+						_, _ = size.DefaultParser(t, 0)
+					} else {
+						_, _ = size.DefaultParser([]byte(t), size.RuleDisableUnit)
+					}
+				}
+				for _, rule := range []int{0, 1} {
+					judge(Case{Kind: "text", Text: vkit.B(x), Rule: rule}, w)
+					judge(Case{Kind: "text", Text: vkit.B(y), Rule: rule}, w)
+				}
+				w.EvalRandom(vkit.Hash64("W3", x), true)
+			}
+		})
+	})
+
 	// Phase E: rapid text grammar
 	r.Phase("E: rapid text grammar with separators, leading zeros, long numbers and negative cases", func() {
 		r.Rapid(t, "rapid-text", 0, r.Pick(40000, 2000000), func(rt *rapid.T, w *vkit.W) vkit.RapidCase {
